@@ -76,9 +76,13 @@ fn main() {
             }
         }
         ("cli", "sweep") => {
-            let len: usize = arg(&args, "--len").and_then(|s| s.parse().ok()).unwrap_or(4);
             let mut w = open_out(&out);
-            cli::sweep(len, |s| writeln!(w, "{}", cli::show(&s)).unwrap());
+            if arg(&args, "--family").as_deref() == Some("volume") {
+                cli::volume(|s| writeln!(w, "{}", cli::show(&s)).unwrap());
+            } else {
+                let len: usize = arg(&args, "--len").and_then(|s| s.parse().ok()).unwrap_or(4);
+                cli::sweep(len, |s| writeln!(w, "{}", cli::show(&s)).unwrap());
+            }
         }
         ("cliw", "gen") => {
             let mut rng = Rng::new(seed);
